@@ -123,7 +123,8 @@ pub fn microergs_per_dosc(height: u64) -> u128 {
     }
     while (t.len() as u64) <= height {
         x = *t.last().unwrap();
-        t.push((x + 1).max(x + x / 2_000_000));
+        // (beyond 128 bits, from block 150,582,831 on, the inflator stays at the largest value: finding X)
+        t.push(x.saturating_add(1).max(x.saturating_add(x / 2_000_000)));
     }
     t[height as usize]
 }
